@@ -14,6 +14,7 @@ import (
 	"math"
 	"os"
 	"sort"
+	"strings"
 )
 
 var sep = []byte{0}
@@ -254,6 +255,21 @@ func main() {
 			checked++
 			if fmt.Sprintf("p%sq%sr", a, b) != "p"+a+"q"+b+"r" {
 				fail("sprintf concat", a, b)
+			}
+		}
+	}
+	// dash.smt2: Split(a+"-"+b+"-"+c, "-") for dash-free parts; dash-freedom of concatenations
+	for _, a := range []string{"", "x", "xy", "x.y"} {
+		for _, b := range []string{"", "l", "lab"} {
+			for _, c := range []string{"", "z", "p:q"} {
+				checked++
+				got := strings.Split(a+"-"+b+"-"+c, "-")
+				if len(got) != 3 || got[0] != a || got[1] != b || got[2] != c {
+					fail("dash split", a, b, c)
+				}
+				if strings.Contains(a+b, "-") != (strings.Contains(a, "-") || strings.Contains(b, "-")) {
+					fail("nodash concat", a, b)
+				}
 			}
 		}
 	}
